@@ -940,6 +940,23 @@ func gen(g *hx.Gen) {
 		}
 	}
 
+	// 4c. the fixed-layout DPoS decoders: one byte short, exact, one byte long
+	for _, cn := range []struct {
+		cmd string
+		n   int
+	}{{"ping", 8}, {"pong", 8}, {"inv", 32}, {"getblock", 32}, {"req_pro", 32}, {"get_blc", 8}, {"req_con", 4}, {"verack", 64}} {
+		max := int(instances["dpos"][cn.cmd]().MaxLength())
+		for _, l := range []int{0, cn.n - 1, cn.n, cn.n + 1} {
+			if l <= max {
+				emitRead(g, "dpos", magics[1], frame(magics[1], cn.cmd, r.Bytes(l)))
+			}
+		}
+	}
+	for _, p := range [][]byte{{}, {0}, {0, 1}, {0, 1, 2}, {3, 'a', 'b', 'c', 1, 2}, {3, 'a', 'b', 'c', 1}, {3, 'a', 'b'}, {0xfd, 3, 0, 'a', 'b', 'c', 1, 2},
+		{0xfd, 0xfd, 0}, append(append([]byte{0xfc}, r.Bytes(252)...), 1, 2), append([]byte{0xfc}, r.Bytes(252)...)} {
+		emitRead(g, "dpos", magics[1], frame(magics[1], "addr", p))
+	}
+
 	// 5. real messages written by WriteMessage over a net.Pipe and read back through the stack
 	for _, st := range stacks {
 		for _, cmd := range sortedCmds(st) {
